@@ -398,10 +398,16 @@ impl Campaign for C19c {
                 };
                 spec.headers.push((name, value, via));
             }
-            if g.chance(1, 5) {
+            if g.chance(1, 3) {
                 let nb = "replaced \u{2603} body".as_bytes().to_vec();
                 let l = nb.len();
                 spec.replace_data = Some((B(nb), Some(l)));
+                // a Content-Length supplied by the application must be the true length: with a
+                // replaced body that depends on where the header comes, so none is supplied here
+                spec.headers.retain(|h| !h.0.eq_ignore_ascii_case("Content-Length"));
+                // the body may be replaced at any point of the header sequence
+                let later = spec.headers.iter().filter(|h| !(h.2 == 0 && spec.ctor == Ctor::New)).count();
+                spec.replace_at = if g.chance(1, 2) { Some(g.usize(0, later)) } else { None };
             }
             sc.programs.insert(id, Program { delay: 0, after: vec![], body: BodyPlan::None, delay2: 0, finish: Finish::Respond(spec) });
         }
